@@ -72,8 +72,8 @@ type Edge struct {
 
 // Step is one line of a simulated walk.
 type Step struct {
-	T   int `json:"t"`
-	L   int `json:"l"`
+	T      int             `json:"t"`
+	L      int             `json:"l"`
 	Act    Act             `json:"act"`
 	Pact   json.RawMessage `json:"pact"`
 	RawAct json.RawMessage `json:"-"`
